@@ -15,6 +15,7 @@ from ..harness import Run, actions_results, main_wrapper
 FIXED_LISTS = [
     ["a", "b"], ["red", "dark blue", "x-large"], ["a-b", "a.b", "a b"], ["a", "A"], ["ab", "a_b"], ["1st", "2nd"], ["", "x"], ["x" * 80, "y"], ["é", "e"], ["日本", "中国"], ["a b", "a  b"], ["+", "-"], ["*", "/"],
     ["true", "false"], ["None", "none"], ["class", "def"], ["1", "2"], ["a", "b", "c", "d", "e", "f", "g"], ["value_1", "VALUE_1"], ["Ünï", "unı"], ["a\tb", "a b"], ["#hash", "hash"], ["x²", "x2"], ["mro", "name", "value"], ["_a", "a_"], ["__", "_"],
+    ["first", "VALUE_2", "3rd", "last"], ["VALUE_0", "", "z"], ["value_1", "2", "x"], ["VALUE_1", "a", "1"], ["a", "VALUE_3", "b", "4th"], ["Value 1", "9"],
     [0, 1], [-1, 1], [0], [-5, 5, 50], [2**31, -(2**31)], [10, 100, 1000], [1, 2, 3, 4, 5, 6],
 ]
 CONSTS = ["c", "", "with space", "quote'", 0, 7, -3, 2.5, True, False, "True", "7"]
@@ -79,6 +80,20 @@ def main() -> int:
             j = run.job(d, want=["manifest"], cfg={"literal_enums": le}, plan={"fn": "c14", "args": {"cases": cases}})
             info[j["id"]] = ("enum", le, cases)
             jobs.append(j)
+        # two enums deriving the same class name (inline Order.status_code vs OrderStatus.code), by value-list relation
+        for ri, (rel, v1, v2) in enumerate([("equal", ["new", "paid", "shipped"], ["new", "paid", "shipped"]), ("later_subset", ["new", "paid", "shipped"], ["new", "paid"]), ("later_superset", ["new", "paid"], ["new", "paid", "shipped"]),
+                                            ("disjoint", ["new", "paid"], ["x", "y"]), ("overlap", ["new", "paid"], ["paid", "late"]), ("int_subset", [1, 2, 3], [1, 2]), ("int_superset", [1, 2], [1, 2, 3])]):
+            for flip in (False, True):
+                t = "string" if isinstance(v1[0], str) else "integer"
+                a = {"type": "object", "properties": {"status_code": {"type": t, "enum": v1}}, "additionalProperties": False}
+                b = {"type": "object", "properties": {"code": {"type": t, "enum": v2}}, "additionalProperties": False}
+                comps = {"Order": a, "OrderStatus": b} if not flip else {"OrderStatus": b, "Order": a}
+                cases = {"Order": {"values": v1, "required": False, "null": False, "default": False, "ref": False, "prop": "status_code", "clash": rel}, "OrderStatus": {"values": v2, "required": False, "null": False, "default": False, "ref": False, "prop": "code", "clash": rel}}
+                d = docs.base_doc("3.0.3", "Clash API")
+                d["components"]["schemas"] = comps
+                j = run.job(d, want=["manifest"], cfg={"literal_enums": le}, plan={"fn": "c14", "args": {"cases": cases}})
+                info[j["id"]] = ("enum", le, cases)
+                jobs.append(j)
         # consts (one per document so that a broken one stays local)
         for ci, c in enumerate(CONSTS):
             comps, cases = {}, {}
@@ -142,24 +157,26 @@ def main() -> int:
                     else:
                         if not expect.jeq(x["e"], a["value"]):
                             vd.violation(f"listed_not_reproduced:{style}:{'const' if kind == 'const' else 'enum'}", f"{key}: {a['value']} re-encoded as {x['e']}", w)
-                        at = x["attrs"].get("p") or {}
+                        at = x["attrs"].get(a["x"].get("py") or "p") or next(iter(x["attrs"].values()), {}) or {}
                         inner = at.get("v") if at.get("t") == "enum" else at
-                        if at.get("t") == "enum" and not expect.jeq(inner.get("v"), a["value"]["p"]):
-                            vd.violation(f"member_wire_value:{style}", f"{key}: member {at.get('name')} has value {inner.get('v')!r} for listed {a['value']['p']!r}", w)
+                        pv = next(iter(a["value"].values()))
+                        if at.get("t") == "enum" and not expect.jeq(inner.get("v"), pv):
+                            vd.violation(f"member_wire_value:{style}", f"{key}: member {at.get('name')} has value {inner.get('v')!r} for listed {pv!r}", w)
                 elif what == "unlisted":
                     ev.count("unlisted_value_decodes")
                     if not x.get("exc"):
-                        tcls = "same_type" if type(a["value"]["p"]) is type((vals or [case.get("const")])[0]) else "other_type"
-                        vd.violation(f"unlisted_accepted:{style}:{'const' if kind == 'const' else ('with_null' if case.get('null') else 'plain')}:{tcls}", f"{key}: value {a['value']['p']!r} not in {vals if vals is not None else [case.get('const')]} was accepted and decoded to {x['attrs'].get('p')}", w)
+                        pv = next(iter(a["value"].values()))
+                        tcls = "same_type" if type(pv) is type((vals or [case.get("const")])[0]) else "other_type"
+                        vd.violation(f"unlisted_accepted:{style}:{'const' if kind == 'const' else ('with_null' if case.get('null') else 'plain')}:{tcls}", f"{key}: value {pv!r} not in {vals if vals is not None else [case.get('const')]} was accepted and decoded to {x['attrs'].get('p')}", w)
                 elif what == "null":
                     ev.count("null_decodes")
                     if x.get("exc"):
                         vd.violation(f"null_rejected:{style}", f"{key}: null listed among the values but from_dict raised {x['exc']['type']}", w)
-                    elif (x["attrs"].get("p") or {}).get("t") != "None" or not expect.jeq(x["e"], a["value"]):
+                    elif (next(iter(x["attrs"].values()), {}) or {}).get("t") != "None" or not expect.jeq(x["e"], a["value"]):
                         vd.violation(f"null_not_none:{style}", f"{key}: null decoded to {x['attrs'].get('p')} and re-encoded {x['e']}", w)
                 elif what == "null_unlisted":
                     ev.count("null_unlisted_decodes")
-                    if not x.get("exc") and (x["attrs"].get("p") or {}).get("t") == "None":
+                    if not x.get("exc") and (next(iter(x["attrs"].values()), {}) or {}).get("t") == "None":
                         vd.violation(f"null_accepted_though_unlisted:{style}", f"{key}: null is not listed but was accepted as None", w)
             vclass = "int" if vals and isinstance(vals[0], int) else ("const" if kind == "const" else ("collide" if vals and len({names.collide_key(v).upper() or v for v in vals}) < len(vals) else "str"))
             ev.seen(("C14", vclass, case.get("required"), case.get("null"), case.get("default"), case.get("ref"), style, len(vals or [])))
